@@ -50,7 +50,7 @@ static void omnivore_token(scpi_t * c, scpi_parameter_t * p) {
     *i32 = 0; *u32 = 0; *i64 = 0; *u64 = 0; *f = 0; *d = 0; *isr = 0;
     SCPI_ParamIsNumber(p, TRUE); SCPI_ParamIsNumber(p, FALSE); SCPI_ParamIsValid(p);
     if (SCPI_ParamToInt32(c, p, i32)) SCPI_ResultInt32(c, *i32);
-    if (SCPI_ParamToUInt32(c, p, u32)) { SCPI_ResultUInt32Base(c, *u32, 16); SCPI_ResultUInt32Base(c, *u32, 2); }
+    if (SCPI_ParamToUInt32(c, p, u32)) { SCPI_ResultUInt32Base(c, *u32, 16); SCPI_ResultUInt32Base(c, *u32, 2); SCPI_ResultArbitraryBlockHeader(c, (size_t) *u32);   /* a streamed block as long as the parameter says */ }
     if (SCPI_ParamToInt64(c, p, i64)) SCPI_ResultInt64(c, *i64);
     if (SCPI_ParamToUInt64(c, p, u64)) { SCPI_ResultUInt64Base(c, *u64, 8); SCPI_ResultUInt64Base(c, *u64, 10); }
     if (SCPI_ParamToFloat(c, p, f)) SCPI_ResultFloat(c, *f);
@@ -115,7 +115,7 @@ static scpi_result_t h_omni(scpi_t * c) {
         scpi_bool_t mand = guard == 0 ? TRUE : FALSE;
         switch (typed_mode) {
             case 1: { int32_t * v = (int32_t *) malloc(4); r = SCPI_ParamInt32(c, v, mand); if (r) SCPI_ResultInt32(c, *v); free(v); break; }
-            case 2: { uint32_t * v = (uint32_t *) malloc(4); r = SCPI_ParamUInt32(c, v, mand); free(v); break; }
+            case 2: { uint32_t * v = (uint32_t *) malloc(4); r = SCPI_ParamUInt32(c, v, mand); if (r) SCPI_ResultArbitraryBlockHeader(c, (size_t) *v); free(v); break; }
             case 3: { int64_t * v = (int64_t *) malloc(8); r = SCPI_ParamInt64(c, v, mand); free(v); break; }
             case 4: { uint64_t * v = (uint64_t *) malloc(8); r = SCPI_ParamUInt64(c, v, mand); free(v); break; }
             case 5: { float * v = (float *) malloc(4); r = SCPI_ParamFloat(c, v, mand); if (r) SCPI_ResultFloat(c, *v); free(v); break; }
